@@ -31,13 +31,15 @@ NoDef == Def("", 0, <<>>, "")
 
 DefsFor(name) ==
     IF IsMarkName(name) THEN {Def("M", 0, <<0>>, ""), Def("M", 0, <<1, 2>>, "")}
-    ELSE CASE Menu = "tags"  -> {Def("P", 80, <<>>, ""), Def("D", 2, <<>>, ""), Def("I", 0, <<2>>, "")}
+    ELSE CASE Menu \in {"tags", "tagsb"} -> {Def("P", 80, <<>>, ""), Def("D", 2, <<>>, ""), Def("I", 0, <<2>>, "")}
                                  \cup {Def("R", 0, <<>>, t) : t \in TagNames \ {name}}
                                  \cup {Def("N", 0, <<>>, t) : t \in TagNames \ {name}}
+                                 \cup (IF Menu = "tagsb" THEN {Def("B", 2, <<>>, "")} ELSE {})     \* (only the schedule generators use it)
            [] Menu = "subs"  -> {Def("P", 80, <<>>, ""), Def("D", 2, <<>>, "")}
                                  \cup {Def("R", 0, <<>>, t) : t \in TagNames \ {name}}
                                  \cup {Def("S", 81, <<>>, t) : t \in TagNames \ {name}}
            [] Menu = "files" -> {Def("P", 80, <<>>, ""), Def("D", 2, <<>>, "")}
+           [] Menu = "bytes" -> {Def("P", 80, <<>>, ""), Def("B", 2, <<>>, ""), Def("D", 2, <<>>, "")}
            [] Menu = "conv"  -> {Def("P", 80, <<>>, ""), Def("L", 2, <<>>, ""), Def("D", 2, <<>>, ""), Def("C", 0, <<>>, "")}
 BadDefsFor(name) ==      \* definitions that make a call invalid
     {Def("X", 0, <<>>, ""), Def("R", 0, <<>>, name), Def("R", 0, <<>>, "tag/ghost")}
